@@ -502,6 +502,9 @@ func (t *Timer) Reset(d int64) bool {
 	if d < 0 {
 		d = 0
 	}
+	if E.opts.SyncTimers {
+		t.tm.ch.buf = nil
+	}
 	t.tm.armed = true
 	t.tm.deadline = E.clock + d
 	return was
@@ -510,5 +513,8 @@ func (t *Timer) Reset(d int64) bool {
 func (t *Timer) Stop() bool {
 	was := t.tm.armed
 	t.tm.armed = false
+	if E.opts.SyncTimers {
+		t.tm.ch.buf = nil
+	}
 	return was
 }
